@@ -114,6 +114,8 @@ def endless(spec, kind, read, cutoff):
     head_chunked = b"POST / HTTP/1.1\r\nTransfer-Encoding: chunked\r\n\r\n"
     src = {
         "request-line": Meter(b"GET /", b"a", read),
+        "request-line-after-proxy-line": Meter(b"PROXY TCP4 192.168.0.1 192.168.0.11 56324 443\r\nGET /", b"a", read),
+        "proxy-line": Meter(b"PROXY TCP4 ", b"1", read),
         "header-lines": Meter(b"GET / HTTP/1.1\r\n", b"X-Filler: 0123456789\r\n", read),
         "header-no-crlf": Meter(b"GET / HTTP/1.1\r\nX: ", b"v", read),
         "chunk-size-digits": Meter(head_chunked, b"1", read),
@@ -181,6 +183,11 @@ def run(ctx):
         judge("request line of %d bytes, limit_request_line=%d" % (n, lim), spec, stream,
               must_reject=(eff > 0 and n > eff), must_accept=(eff == 0 or n <= eff), size_errors=("LimitRequestLine",), key=("line", lim, n))
         ctx.hist("family", "request-line")
+        # the same line limit applies to the request line that follows a PROXY protocol line
+        pspec = lp.make_spec(limit_request_line=lim, proxy_protocol=True)
+        judge("request line of %d bytes after a PROXY line, limit_request_line=%d" % (n, lim), pspec,
+              b"PROXY TCP4 192.168.0.1 192.168.0.11 56324 443\r\n" + stream,
+              must_reject=(eff > 0 and n > eff), must_accept=(eff == 0 or (n <= eff and eff >= 46)), size_errors=("LimitRequestLine",), key=("pline", lim, n))
     for lim, n, stream in field_count_cases():
         eff = doc_eff_fields(lim)
         spec = lp.make_spec(limit_request_fields=lim)
@@ -205,10 +212,12 @@ def run(ctx):
              lp.make_spec(limit_request_fields=20, limit_request_field_size=0)]
     if not ctx.quick():
         specs.append(lp.make_spec())
-    kinds = ["request-line", "header-lines", "header-no-crlf", "chunk-size-digits", "chunk-extension", "trailer-lines", "trailer-no-crlf"]
+    kinds = ["request-line", "request-line-after-proxy-line", "proxy-line", "header-lines", "header-no-crlf", "chunk-size-digits", "chunk-extension", "trailer-lines", "trailer-no-crlf"]
     for spec in specs:
         bound = bound_of(spec)
         for kind in kinds:
+            if "proxy" in kind:
+                spec = dict(spec, proxy_protocol=True)
             for read in ([7, 1024, 8192] if bound < 100000 else [8192]):
                 cutoff = 64 * bound
                 pulled, how = endless(spec, kind, read, cutoff)
